@@ -24,6 +24,13 @@ class ToolError(Exception):
     pass
 
 
+class CrashError(ToolError):
+    """The harness process died from a signal while executing the code under test (abort in a destructor, allocation failure, ...)."""
+    def __init__(self, msg, rc):
+        ToolError.__init__(self, msg)
+        self.rc = rc
+
+
 def log(*a):
     print(*a, flush=True)
 
@@ -181,10 +188,39 @@ def tlc_simulate(module, cfg, workdir, *, num, depth, seed, timeout=300):
 # ------------------------------------------------------------------------------------- harness
 def vh(args, timeout=900):
     rc, out = sh([VH] + [str(a) for a in args], timeout)
+    if rc is not None and rc < 0:
+        raise CrashError("vh %s died from signal %d" % (" ".join(map(str, args[:3])), -rc), rc)
     if rc != 0:
         sys.stdout.write(out[-3000:])
         raise ToolError("vh %s failed (rc=%s)" % (" ".join(map(str, args[:3])), rc))
     return out
+
+
+def vh_replay_isolating_crashes(component, behaviours, bf, tf, workdir, max_crashes=3):
+    """vh replay; if the process dies, the behaviour that kills it is found by bisection, set aside, and the rest is replayed.
+    Returns the list of (behaviour, signal) that crashed the process."""
+    crashed = []
+    cur = list(behaviours)
+    while True:
+        write_behaviours(bf, cur)
+        try:
+            vh(["replay", component, bf, tf])
+            return crashed
+        except CrashError as ex:
+            if len(crashed) >= max_crashes:
+                raise
+            lo, hi = 0, len(cur)          # invariant: cur[lo:hi] contains a crashing behaviour
+            probe = os.path.join(workdir, "crash-probe.ndjson")
+            while hi - lo > 1:
+                mid = (lo + hi) // 2
+                write_behaviours(probe, cur[lo:mid])
+                try:
+                    vh(["replay", component, probe, probe + ".out"])
+                    lo = mid
+                except CrashError:
+                    hi = mid
+            crashed.append((cur[lo], -ex.rc))
+            cur = cur[:lo] + cur[lo + 1:]
 
 
 def write_behaviours(path, behaviours):
